@@ -190,6 +190,12 @@ func (st *IbcSt) only(vs []Violation) []Violation {
 		if v.Invariant == "tolerated-failure" || v.Invariant == "error-ack-no-effects" {
 			out = append(out, v)
 		}
+		if v.Invariant == "inbound-credit" {
+			// a packet whose conversion to ERC-20 failed (token pair switched off) but which was acknowledged as
+			// success has left the partial effects of the failed step behind: same ledger oracle as C19
+			v.Invariant, v.Site = "tolerated-failure", "ibc/ledger/"+v.Site
+			out = append(out, v)
+		}
 	}
 	return out
 }
